@@ -86,6 +86,10 @@ def shards(tier):
   return out
 
 
+def case_env(case):
+  return {"x64": False} if case.get("f32") else {}
+
+
 def strategy(shard):
   return _case(shard["max_n"], shard["f32"], tuple(shard["routines"]), tuple(shard["rels"]))
 
